@@ -651,7 +651,11 @@ class SpectralDensity(DFunction, UnitsManaged):
             
             newpars.append(prms)
     
-        ind_of_zero, diff = self.axis.locate(0.0)
+        # nearest grid point to zero frequency (locate() returns the lower
+        # neighbour and can miss the origin by rounding, which leaves
+        # coth(0)*J(0) = inf*0 in the direct evaluation below)
+        ind_of_zero = self.axis.nearest(0.0)
+        diff = 0.0 - self.axis.data[ind_of_zero]
         atol = 1.0e-7
         twokbt = 2.0*kB_int*temp
 
